@@ -4,6 +4,7 @@
     first and last segment listed by the MPD model at an instant: that is C02_timeline_is_window
     (props/C02.v), restated here. *)
 From Verif Require Import GoSem Timeline TimelineProofs Publish Window WindowProofs Template TemplateProofs.
+From Verif Require Import Periods PublishPeriods PublishPeriodsProofs.
 From VerifGen Require Consts.
 
 Theorem C05_consts : Consts.app_defaultStartNr = 0.
@@ -208,3 +209,66 @@ Proof.
   split; [|vm_compute; repeat split; reflexivity].
   constructor; cbn; try lia; try discriminate; repeat constructor; cbn; lia.
 Qed.
+
+(** ** Multi-period SegmentTimeline MPDs (periods_N): publishTime
+
+    [publish_periods] (theories/PublishPeriods.v) is the publishTime of the MPD with periods, for
+    assets whose video/text representations share the reference grid: the publishTime of the
+    single-period MPD ([mpdPublishMS]: availability instant of the newest listed segment less the
+    availabilityTimeOffset, not before availabilityStartTime), moved to the start of the Period
+    that contains now while that Period lists no segment yet.  The correspondence compares it -
+    and [publish_periods_exec], which runs the C06 model of splitPeriod on the reference timeline
+    and looks at its newest Period, and the number / first / last listed segment of every Period -
+    with every served MPD of the periods sweeps; that the closed form and the executable agree is
+    checked there, not proved.  Hypotheses: admitted asset ([wf]), 1 <= periods per hour <= 3600,
+    offset >= 0 of any size (below or beyond a segment), every segment end on the millisecond grid. *)
+
+(** publishTime is never later than the instant of the request (nor earlier than
+    availabilityStartTime). *)
+Theorem C05_publish_periods_le_now : forall r loopMS, wf r loopMS -> forall c tsbdMS atoMS pph,
+  0 <= tsbdMS -> 0 <= atoMS -> 1 <= pph <= 3600 ->
+  (forall n, 0 <= n -> (ts r | E r n * 1000)) ->
+  forall now, startS c * 1000 <= now ->
+  startS c * 1000 <= publish_periods r loopMS c now tsbdMS atoMS pph <= now.
+Proof. exact publish_periods_le_now. Qed.
+Print Assumptions C05_publish_periods_le_now.
+
+(** publishTime never decreases. *)
+Theorem C05_publish_periods_monotone : forall r loopMS, wf r loopMS -> forall c tsbdMS atoMS pph,
+  0 <= tsbdMS -> 0 <= atoMS -> 1 <= pph <= 3600 ->
+  (forall n, 0 <= n -> (ts r | E r n * 1000)) ->
+  forall now1 now2, startS c * 1000 <= now1 <= now2 ->
+  publish_periods r loopMS c now1 tsbdMS atoMS pph <= publish_periods r loopMS c now2 tsbdMS atoMS pph.
+Proof. exact publish_periods_monotone. Qed.
+Print Assumptions C05_publish_periods_monotone.
+
+(** publishTime is the instant of the last change AT THE LIVE EDGE: on [publishTime(now), now] the
+    newest listed segment, the number of the newest Period (the Period of now, or - with an offset
+    beyond a segment - the later Period in which the newest listed segment already starts:
+    [liveContent]) and publishTime itself are constant.
+    PARTIAL: the old end of the MPD (first listed segment, oldest Period) is not covered - a
+    segment leaving the time-shift window changes the MPD without a new publishTime (known
+    finding publishtime-ignores-window-start; for one Period C05_first_follows_last gives the
+    condition under which the old end follows the live edge). *)
+Theorem C05_publish_periods_is_last_change_partial : forall r loopMS, wf r loopMS -> forall c tsbdMS atoMS pph,
+  0 <= tsbdMS -> 0 <= atoMS -> 1 <= pph <= 3600 ->
+  (forall n, 0 <= n -> (ts r | E r n * 1000)) ->
+  forall now now', startS c * 1000 <= now ->
+  publish_periods r loopMS c now tsbdMS atoMS pph <= now' <= now ->
+  liveContent r c atoMS now' pph = liveContent r c atoMS now pph /\
+  publish_periods r loopMS c now' tsbdMS atoMS pph = publish_periods r loopMS c now tsbdMS atoMS pph.
+Proof. exact publish_periods_is_last_change. Qed.
+Print Assumptions C05_publish_periods_is_last_change_partial.
+
+(** Non-vacuity: the 4 x 2 s loop meets the hypotheses; periods_30 (120 s Periods), offset 0.5 s,
+    around the Period start 120 s: publishTime 119.5 s when [118 s, 120 s) becomes available, moves
+    to 120 s when the still empty Period P1 appears, and to 121.5 s when its first segment is listed. *)
+Example C05_publish_periods_example :
+  wf ato_rep 8000 /\ (forall n, 0 <= n -> (ts ato_rep | E ato_rep n * 1000)) /\
+  let c := {| startS := 0; startNr := 0; tsbdS := 60; ato := Some 500 |} in
+  map (fun now => (publish_periods ato_rep 8000 c now 60000 500 30,
+                   publish_periods_exec ato_rep 8000 c now 60000 500 30 2000,
+                   liveContent ato_rep c 500 now 30)) [119499; 119500; 119999; 120000; 121499; 121500]
+  = [(117500, Ok 117500, (58, 0)); (119500, Ok 119500, (59, 0)); (119500, Ok 119500, (59, 0));
+     (120000, Ok 120000, (59, 1)); (120000, Ok 120000, (59, 1)); (121500, Ok 121500, (60, 1))].
+Proof. exact (conj ato_rep_wf (conj ato_rep_grid periods30_example)). Qed.
